@@ -813,3 +813,38 @@ def post_C17(cases, xs):
             findings.append({"case": name, "kind": "spec", "check": kind,
                              "detail": f"file {fid}: the {'package' if kind == 'pkgq' else 'item'} symbol's qualified name is {got!r}, the text says {want!r}"})
     return findings, {"qualified_names_compared": n}
+
+
+# ------------------------------------------------------------------ C02: layouts of one document lex to the same tokens
+def post_C02(cases, xs):
+    """the hypothesis of C02_tree_is_a_function_of_the_tokens, checked on the layout variants of every generated document:
+    the (regenerated) lexer model cuts them into the same tokens"""
+    import core, os, re as _re
+    groups = {}
+    for c in cases:
+        m = _re.fullmatch(r"(d\d+)_(\w+)", c["name"])
+        if m and c.get("files"):
+            groups.setdefault(m.group(1), []).append(c)
+    lines, names = [], {}
+    for g, cs in groups.items():
+        base = cs[0]
+        for other in cs[1:]:
+            nm = f"{base['name']}~{other['name']}"
+            names[nm] = other["name"]
+
+            def enc(t):
+                return "(" + " ".join(str(ord(ch)) for ch in t) + ")"
+            lines.append(f"Q {nm} ({enc(base['files'][0][1])} {enc(other['files'][0][1])})")
+    if not lines:
+        return [], {"layout_pairs": 0}
+    os.makedirs(core.WORK, exist_ok=True)
+    path = os.path.join(core.WORK, "C02.layout_pairs.out")
+    with open(path, "w") as f:
+        f.write("\n".join(lines) + "\n")
+    res, errs = core.run_model([path], "Q", ["spec_C02_lexsim"])
+    findings = [{"case": None, "kind": "runner", "check": "runner", "detail": e} for e in errs]
+    for nm, v in res["spec_C02_lexsim"].items():
+        if v != 0:
+            findings.append({"case": names.get(nm, nm), "kind": "spec", "check": "layout_tokens",
+                             "detail": f"two layouts of one document do not lex to the same token sequence ({nm})"})
+    return findings, {"layout_pairs": len(lines)}
